@@ -1,5 +1,10 @@
 // zkexec: executes scenarios on the real zerokit code and records traces for the TLA+ judges.
+mod cfg_exec;
 mod intern;
+#[cfg(not(feature = "stateless"))]
+mod ffi_exec;
+#[cfg(not(feature = "stateless"))]
+mod misc_exec;
 #[cfg(not(feature = "stateless"))]
 mod proto_exec;
 #[cfg(not(feature = "stateless"))]
@@ -29,10 +34,33 @@ fn main() {
     quiet_panics();
     match args[1].as_str() {
         "tree" => cmd_tree(&args),
+        "cfgrun" => cmd_cfgrun(&args),
         #[cfg(not(feature = "stateless"))]
         "rln" => cmd_rln(&args),
         #[cfg(not(feature = "stateless"))]
         "proto" => cmd_proto(&args),
+        #[cfg(not(feature = "stateless"))]
+        "ffi-child" => {
+            let scenario = read_ndjson(arg(&args, "--scenario").expect("--scenario"));
+            ffi_exec::run_child(&scenario, arg(&args, "--out").expect("--out"));
+        }
+        #[cfg(not(feature = "stateless"))]
+        "ffi" => cmd_ffi(&args),
+        #[cfg(not(feature = "stateless"))]
+        "codec" => {
+            let mut out = Vec::new();
+            misc_exec::run_codec(arg(&args, "--seed").unwrap_or("1").parse().unwrap(), arg(&args, "--count").unwrap_or("1200").parse().unwrap(), &mut out);
+            write_ndjson(arg(&args, "--out").expect("--out"), &out);
+        }
+        #[cfg(not(feature = "stateless"))]
+        "keygen" => {
+            let mut out = Vec::new();
+            let mut it = Interner::new();
+            misc_exec::run_keygen(arg(&args, "--seed").unwrap_or("1").parse().unwrap(), arg(&args, "--proc").unwrap_or("0").parse().unwrap(),
+                                  arg(&args, "--unseeded").unwrap_or("60").parse().unwrap(), &mut out, &mut it);
+            write_ndjson(arg(&args, "--out").expect("--out"), &out);
+            write_json(arg(&args, "--tab").expect("--tab"), &it.tables());
+        }
         #[cfg(all(feature = "pmtree", not(feature = "stateless")))]
         "storage" => cmd_storage(&args),
         c => {
@@ -100,4 +128,79 @@ fn cmd_proto(args: &[String]) {
     proto_exec::run(&scenario, &mut it, &mut out);
     write_ndjson(arg(args, "--out").expect("--out"), &out);
     write_json(arg(args, "--tab").expect("--tab"), &it.tables());
+}
+
+/// zkexec ffi --scenario S --out T : runs the lock-step scenario in child processes; an abort of a child
+/// (a panic crossing the extern "C" boundary) is recorded for the call that was in progress
+#[cfg(not(feature = "stateless"))]
+fn cmd_ffi(args: &[String]) {
+    use serde_json::json;
+    let scenario = read_ndjson(arg(args, "--scenario").expect("--scenario"));
+    let out_path = arg(args, "--out").expect("--out");
+    let exe = std::env::current_exe().unwrap();
+    let mut all: Vec<serde_json::Value> = Vec::new();
+    let mut start = 0usize;
+    let mut round = 0;
+    while start < scenario.len() && round < 200 {
+        round += 1;
+        let part: Vec<serde_json::Value> = scenario[start..].to_vec();
+        let sp = format!("{out_path}.part{round}.scen");
+        let tp = format!("{out_path}.part{round}.trace");
+        write_ndjson(&sp, &part);
+        let st = std::process::Command::new(&exe).args(["ffi-child", "--scenario", &sp, "--out", &tp]).stderr(std::process::Stdio::null()).status();
+        let rows = if std::path::Path::new(&tp).exists() { read_ndjson(&tp) } else { vec![] };
+        let ended = rows.iter().any(|r| r["t"] == "end");
+        let mut last_begin: Option<usize> = None;
+        for r in rows.iter() {
+            if r["t"] == "begin" {
+                last_begin = r["k"].as_u64().map(|x| x as usize);
+            } else if r["t"] != "end" {
+                let mut r = r.clone();
+                r["k"] = json!(r["k"].as_u64().unwrap() as usize + start);
+                all.push(r);
+            }
+        }
+        let _ = std::fs::remove_file(&sp);
+        let _ = std::fs::remove_file(&tp);
+        if ended {
+            break;
+        }
+        // the child died during call last_begin
+        let k = last_begin.unwrap_or(0);
+        all.push(json!({"t": "ffi", "k": k + start, "op": part[k], "abort": true,
+                        "status": st.map(|s| format!("{s}")).unwrap_or_default()}));
+        // resume at the next reset
+        let mut nxt = k + 1;
+        while nxt < part.len() && part[nxt]["c"] != "reset" {
+            nxt += 1;
+        }
+        start += nxt;
+    }
+    write_ndjson(out_path, &all);
+}
+
+/// zkexec cfgrun --phase produce|verify --scenario S --msgs M --out T   (C17, one invocation per build configuration)
+fn cmd_cfgrun(args: &[String]) {
+    let phase = arg(args, "--phase").expect("--phase");
+    let mut out: Vec<serde_json::Value> = Vec::new();
+    let msgs_path = arg(args, "--msgs").expect("--msgs");
+    #[cfg(not(feature = "stateless"))]
+    {
+        let scenario = read_ndjson(arg(args, "--scenario").expect("--scenario"));
+        if phase == "produce" {
+            let mut msgs = Vec::new();
+            cfg_exec::produce(&scenario, &mut out, &mut msgs);
+            write_ndjson(msgs_path, &msgs);
+        } else {
+            let msgs = read_ndjson(msgs_path);
+            cfg_exec::verify_others(&scenario, &msgs, &mut out);
+        }
+    }
+    #[cfg(feature = "stateless")]
+    {
+        let _ = phase;
+        let msgs = read_ndjson(msgs_path);
+        cfg_exec::stateless_verify(&msgs, &mut out);
+    }
+    write_ndjson(arg(args, "--out").expect("--out"), &out);
 }
